@@ -115,6 +115,28 @@ def alternatives_order(chk, rule, cr, rev, rq, w):
             chk.ob(rule, CR, rq, f"of the alternative names {group} the reader tries first the one the writer refreshes ({written[0]!r}): a stale "
                    "alternative retained in the exported dictionary must not win on reading back", group[0] in w, node=n,
                    fingerprint=f"alternatives:{written[0]}", expected=f"{written[0]!r} first", found=f"tried in the order {group}")
+    # the same search written (or folded from a table) as a chain  if A in data: ... elif B in data: ...
+    def key_test(t):
+        if isinstance(t, _ast.Compare) and len(t.ops) == 1 and isinstance(t.ops[0], _ast.In) and isinstance(t.left, _ast.Constant) \
+                and isinstance(t.left.value, str) and isinstance(t.comparators[0], _ast.Name):
+            return t.left.value
+        return None
+    inner = set()
+    for n in _ast.walk(fn):
+        if isinstance(n, _ast.If) and len(n.orelse) == 1 and isinstance(n.orelse[0], _ast.If):
+            inner.add(id(n.orelse[0]))
+    for n in _ast.walk(fn):
+        if not isinstance(n, _ast.If) or id(n) in inner or key_test(n.test) is None:
+            continue
+        group, cur = [], n
+        while cur is not None and key_test(cur.test) is not None:
+            group.append(key_test(cur.test))
+            cur = cur.orelse[0] if len(cur.orelse) == 1 and isinstance(cur.orelse[0], _ast.If) else None
+        written = [k for k in group if k in w]
+        if written and len(group) > 1:
+            chk.ob(rule, CR, rq, f"of the alternative names {group} the reader tries first the one the writer refreshes ({written[0]!r}): a stale "
+                   "alternative retained in the exported dictionary must not win on reading back", group[0] in w, node=n,
+                   fingerprint=f"alternatives:{written[0]}", expected=f"{written[0]!r} first", found=f"tried in the order {group}")
 
 
 def r10_1(chk, repo, cr):
@@ -125,6 +147,15 @@ def r10_1(chk, repo, cr):
     chk.saw(CR, rq)
     data = P.name(rev.param_names[1])
     read = {}
+    # keys whose presence the reader tests somewhere ('k' in data): a value read under such a test may travel on in a local
+    tested = set()
+    for e in rev.events:
+        for t in [e.value] + [c for c, _ in e.guards]:
+            if t is None:
+                continue
+            for a in find_atoms(t, lambda a: a[0] == "in" and a[2].key() == data.key()):
+                if string_value(a[1]):
+                    tested.add(string_value(a[1]))
     for e in rev.events:
         for val in (e.value,):
             if val is None:
@@ -132,7 +163,8 @@ def r10_1(chk, repo, cr):
             for a in find_atoms(val, lambda a: a[0] == "sub" and a[1].key() == data.key() and len(a[2]) == 1):
                 k = string_value(a[2][0])
                 if k:
-                    guarded = any(pol and c.as_atom() and c.as_atom()[0] == "in" and string_value(c.as_atom()[1]) == k for c, pol in e.guards)
+                    guarded = k in tested or \
+                        any(pol and c.as_atom() and c.as_atom()[0] == "in" and string_value(c.as_atom()[1]) == k for c, pol in e.guards)
                     if guarded:
                         read.setdefault(k, "optional")
                     else:
@@ -150,6 +182,13 @@ def r10_1(chk, repo, cr):
     for e in rev.events:
         if e.kind == "assign" and e.name == "symop_data_names":
             tried = [string_value(x) for x in seq_items(e.value) or []]
+    # ... or directly: the names under which a list of operation strings is fetched and handed to from_string_code
+    for e in rev.events:
+        if e.value is not None and "from_string_code" in e.value.key():
+            for a in find_atoms(e.value, lambda a: a[0] == "sub" and a[1].key() == data.key() and len(a[2]) == 1):
+                k = string_value(a[2][0])
+                if k and k not in tried:
+                    tried.append(k)
     for k in tried:
         read.setdefault(k, "optional")
     required = sorted(k for k, v in read.items() if v == "required")
@@ -219,7 +258,7 @@ def r10_1(chk, repo, cr):
            and "atom_site_occupancy" in kw["occupation"].key(), found=str({k: str(v)[:50] for k, v in kw.items()}))
     sy = [e for e in rev.events if e.kind == "assign" and e.name == "symops"]
     chk.ob("R10.1", CR, rq, "operations are read with from_string_code and identified through from_symmetry_operations",
-           bool(sy) and "from_string_code" in sy[0].value.key() and any("from_symmetry_operations" in e.value.key() for e in rev.events if e.kind == "assign" and e.name == "new_sg"))
+           bool(sy) and "from_string_code" in sy[0].value.key() and any("from_symmetry_operations" in e.value.key() for e in rev.events if e.kind in ("assign", "call") and e.value is not None))
 
 
 def r10_2(chk, repo, cr):
@@ -240,6 +279,18 @@ def r10_2(chk, repo, cr):
     for e in tv.events:
         if e.kind == "assign" and e.name == "SHELX_FORMATTERS":
             fm = dict_items(e.value)
+    applied_form = False
+    if not fm and tv.returns:
+        # the table written out (folded from a module-level table of (key, formatter) rows): "\n".join([F1(data[K1]), F2(data[K2]), ...])
+        ra0 = tv.returns[-1].value.as_atom()
+        its = seq_items(ra0[2][0]) if ra0 and ra0[0] == "call" and len(ra0[2]) == 1 and tv.returns[-1].value.key().startswith("'\\n'.join(") else None
+        if its:
+            fm = []
+            for it in its:
+                ks = {string_value(a[2][0]) for a in find_atoms(it, lambda a: a[0] == "sub" and a[1].key() == tv.param_names[0] and len(a[2]) == 1)}
+                chk.need(len(ks) == 1 and None not in ks, f"to_res_contents: section {str(it)[:60]} does not format exactly one entry of the data")
+                fm.append((ks.pop(), None, it))
+            applied_form = True
     chk.need(fm, "to_res_contents: SHELX_FORMATTERS literal not found")
     fkeys = [k for k, _, _ in fm]
     node = sx.toplevel_assign("SHELX_LINE_KEYS")
@@ -254,16 +305,33 @@ def r10_2(chk, repo, cr):
            ("SFAC" in fkeys and "ATOM" in fkeys and fkeys.index("SFAC") < fkeys.index("ATOM")), found=fkeys)
     okloop = any(l.kind == "iter" and l.iter is not None and "SHELX_FORMATTERS" in l.iter.key() for l in tv.all_loops)
     app = [e for e in tv.events if e.kind == "call" and e.target is not None and e.target.key().endswith(".append")]
-    okapp = False
-    if app:
-        aa = app[0].extra["args"][0].as_atom()
-        if aa and aa[0] == "call" and len(aa[2]) == 1:
-            fk = aa[1].as_atom()
-            dk = aa[2][0].as_atom()
-            okapp = bool(fk and fk[0] == "sub" and fk[1].key() == "$SHELX_FORMATTERS" and dk and dk[0] == "sub"
-                         and dk[1].key() == tv.param_names[0] and fk[2][0].key() == dk[2][0].key())
+
+    def applied(term):
+        """FORMATTERS[k](data[k]) with one key k, or formatter(data[key]) for (key, formatter) an item of FORMATTERS."""
+        aa = term.as_atom()
+        if not (aa and aa[0] == "call" and len(aa[2]) == 1 and not (len(aa) > 3 and aa[3])):
+            return False
+        fk = aa[1].as_atom()
+        dk = aa[2][0].as_atom()
+        if not (fk and fk[0] == "sub" and dk and dk[0] == "sub" and dk[1].key() == tv.param_names[0] and len(dk[2]) == 1 and len(fk[2]) == 1):
+            return False
+        if fk[1].key() == "$SHELX_FORMATTERS":
+            return fk[2][0].key() == dk[2][0].key()
+        item = fk[1].as_atom()
+        return bool(item and item[0] == "sub" and item[1].key() == "$SHELX_FORMATTERS.items()" and fk[2][0] == P.const(1)
+                    and dk[2][0].key() == P.atom(("sub", fk[1], (P.const(0),))).key())
+    okapp = bool(app) and applied(app[0].extra["args"][0])
+    shown = str(app[0].extra["args"][0])[:120] if app else None
+    ra = tv.returns[-1].value.as_atom()
+    if not app and ra and ra[0] == "call" and len(ra[2]) == 1:
+        # "\n".join(<formatter applied> for ... in FORMATTERS[.items()])
+        ca = ra[2][0].as_atom()
+        if ca and ca[0] == "comp" and ca[1] in ("GeneratorExp", "ListComp") and len(ca) == 4 and len(ca[3]) == 1 and not ca[3][0][2]:
+            okloop = ca[3][0][1].key() in ("$SHELX_FORMATTERS", "$SHELX_FORMATTERS.items()", "$SHELX_FORMATTERS.keys()")
+            okapp = applied(ca[2])
+            shown = str(ca[2])[:120]
     chk.ob("R10.2", SX, "to_res_contents", "each section is its formatter applied to the data under the same key, joined by newlines",
-           okloop and okapp and tv.returns[-1].value.key().startswith("'\\n'.join("), found=str(app[0].extra["args"][0])[:120] if app else None)
+           applied_form or (okloop and okapp and tv.returns[-1].value.key().startswith("'\\n'.join(")), found=shown)
     # each formatter prefixes its own keyword
     for k, _, v in fm:
         va = v.as_atom()
@@ -293,6 +361,16 @@ def r10_2(chk, repo, cr):
            okocc, fingerprint="res-occupancy", expected="'{label} {sfac} {x} {y} {z} {occupancy}'", found=tmpl)
     sf = [e for e in wev.events if e.kind == "assign" and e.name == "atom_sfac"]
     okplus = bool(sf) and "1 + " in sf[0].value.key() and ".index(" in sf[0].value.key()
+    if sf and not okplus:
+        # a lookup table {element: position + 1 for position, element in enumerate(sfac)} indexed by the atom's element
+        ca = sf[0].value.as_atom()
+        elt = ca[2].as_atom() if ca and ca[0] == "comp" and ca[1] in ("ListComp", "GeneratorExp") and len(ca) == 4 else None
+        tab = elt[1].as_atom() if elt and elt[0] == "sub" and len(elt[2]) == 1 else None
+        if tab and tab[0] == "comp" and tab[1] == "DictComp" and len(tab) == 5 and len(tab[4]) == 1 and tab[4][0][0] == "enumerate" and not tab[4][0][2]:
+            ka = tab[2].as_atom()
+            okplus = bool(ka and ka[0] == "sub" and len(ka[2]) == 1 and tab[4][0][1].as_atom()[0] == "call"
+                          and ka[1].key() == tab[4][0][1].as_atom()[2][0].key() and (tab[3] - ka[2][0]) == P.const(1)
+                          and "site_atoms" in elt[2][0].key())
     chk.ob("R10.2", CR, wq, "the SFAC index written is the 1-based position of the atom's element in the SFAC list", okplus,
            found=str(sf[0].value)[:120] if sf else None)
     sfl = d["SFAC"].key()
@@ -383,6 +461,10 @@ def r10_2(chk, repo, cr):
     chk.saw(SX, "parse_shelx_file_content")
     seed = [e for e in rv.events if e.kind == "assign" and e.name == "shelx_dict"]
     okseed = bool(seed) and "from_string_code('x,y,z')" in obj_init(seed[0].value).key()
+    if seed and not okseed:
+        # the two lists bound to names of their own first
+        its = {k: obj_init(v) for k, _, v in (dict_items(obj_init(seed[0].value)) or [])}
+        okseed = "SYMM" in its and "from_string_code('x,y,z')" in its["SYMM"].key() and seq_items(its["SYMM"]) is not None and len(seq_items(its["SYMM"])) == 1
     chk.ob("R10.2", SX, "parse_shelx_file_content", "the reader seeds SYMM with the identity and ATOM with an empty list", okseed,
            found=str(obj_init(seed[0].value))[:160] if seed else None)
     fr = cr.ev("Crystal.from_shelx_string")
@@ -424,7 +506,7 @@ def r10_3(chk, repo, cr):
            found=str({k: [str(x) for x in v] for k, v in alld.items() if k in ("coord", "elements", "ordering")}))
     ek, ck = defs["els"].key(), defs["counts"].key()
     if "element_counts" in defs:
-        okcnt = defs["element_counts"].key() == "collections.Counter($elements'1)" and "$element_counts.keys()" in ek \
+        okcnt = defs["element_counts"].key() == "collections.Counter($elements'1)" and ("$element_counts.keys()" in ek or "((iter $element_counts ()" in ek) \
             and "$element_counts.values()" in ck and ".symbol" in ek
     else:
         # np.unique(sorted elements, return_counts=True): values ascending, counts in the same order ([0] feeds the symbols, [1] the counts)
